@@ -68,7 +68,16 @@ ClassifyVault(rec) ==
   ELSE IF ~rec.all_done THEN "blocked_request_never_proceeded"
   ELSE "ok"
 
+\* a timer whose own PATCH exhausts the API retries: the operator stays alive, other objects' timers keep their pace, and the timer
+\* of this object runs again once the API has recovered (F17: it never does)
+ClassifyTimer(rec) ==
+  IF ~rec.alive THEN "operator_stopped"
+  ELSE IF rec.other_runs_during = 0 THEN "other_object_delayed"
+  ELSE IF rec.runs_after = 0 THEN "F17"
+  ELSE "ok"
+
 ClassifyC12(rec) == CASE rec.kind = "retry" -> ClassifyRetry(rec)
+                      [] rec.kind = "timer" -> ClassifyTimer(rec)
                       [] rec.kind = "throttle" -> ClassifyThrottle(rec)
                       [] rec.kind = "vault" -> ClassifyVault(rec)
                       [] OTHER -> "unknown_record_kind"
